@@ -65,6 +65,7 @@ func TestC08(t *testing.T) {
 }
 
 type opRec struct {
+	Own      []string `json:"own,omitempty"`              // cleanup: resources of the kind that the controller owned before the call
 	Claim    bool     `json:"claims_ownership,omitempty"` // the submitted object / the mutator names the controller itself as owner
 	Op       string   `json:"op"`
 	Target   gp.Key   `json:"target"`
@@ -297,6 +298,10 @@ func scenario(c *vk.C, rng *rand.Rand, k int) {
 			c.Count("q_flavour_ops", 1)
 		}
 
+		if rec.Op == "cleanup" {
+			c.Count("output_tracker_cleanups", 1)
+		}
+
 		if isCached(kd) {
 			c.Count("cached_kind_ops", 1)
 		}
@@ -356,10 +361,23 @@ func declString(inputs []controller.Input, outputs []controller.Output) string {
 	return s
 }
 
+// tracking remembers per probe whether output tracking is switched on (StartTrackingOutputs must not be called twice)
+var (
+	tracking   = map[controller.Runtime]bool{}
+	trackingMu sync.Mutex
+)
+
 var opNames = []string{"get", "list", "getuncached", "listuncached", "ctxteardown", "create", "update", "modify", "teardown", "destroy", "addfin", "rmfin"}
 
 func doOp(ctx context.Context, w *rtp.World, r controller.QRuntime, rng *rand.Rand) opRec {
 	rec := opRec{Op: opNames[rng.IntN(len(opNames))], Target: gp.Key{NS: nss[rng.IntN(2)], Type: types[rng.IntN(3)], ID: ids[rng.IntN(2)]}}
+
+	// the plain Controller flavour also has the output tracker: "destroy every output of this kind that I own and did not touch"
+	full, isFull := r.(controller.Runtime)
+	if isFull && rng.IntN(10) == 0 {
+		rec.Op = "cleanup"
+	}
+
 	before := w.Px.ShadowAll()
 	rec.Pre = before[rec.Target]
 	ptr := rtp.Ptr(rec.Target)
@@ -487,6 +505,28 @@ func doOp(ctx context.Context, w *rtp.World, r controller.QRuntime, rng *rand.Ra
 		} else {
 			setErr(r.Destroy(ctx, ptr, opts...))
 		}
+	case "cleanup":
+		trackingMu.Lock()
+		on := tracking[full]
+		trackingMu.Unlock()
+
+		if !on {
+			full.StartTrackingOutputs()
+		}
+
+		err := full.CleanupOutputs(ctx, kind)
+
+		trackingMu.Lock()
+		tracking[full] = err != nil // (a failed clean-up leaves tracking switched on)
+		trackingMu.Unlock()
+
+		setErr(err)
+
+		for key, v := range before {
+			if key.NS == rec.Target.NS && key.Type == rec.Target.Type && v.Owner == self {
+				rec.Own = append(rec.Own, key.String())
+			}
+		}
 	case "addfin":
 		setErr(r.AddFinalizer(ctx, ptr, "pfin"))
 	case "rmfin":
@@ -565,6 +605,26 @@ func finAccess(inputs []controller.Input, k gp.Key) bool {
 func judge(rec opRec, inputs []controller.Input, outputs []controller.Output) (string, string) {
 	failed := rec.Err != ""
 	unchanged := len(rec.Changed) == 0
+
+	if rec.Op == "cleanup" {
+		// outputs only: for a kind that is not a declared output nothing may change, whatever the call returns (it may succeed when it
+		// finds nothing of its own there); for an output kind only resources of that kind owned by the controller may change (a
+		// failure half-way - somebody's finalizer - leaves the earlier removals in place)
+		switch {
+		case !isOutput(outputs, rec.Target.Type) && !unchanged:
+			return "undeclared-access-allowed", fmt.Sprintf("CleanupOutputs for %s/%s, not a declared output, changed %v (returned %q)", rec.Target.NS, rec.Target.Type, rec.Changed, rec.Err)
+		case !isOutput(outputs, rec.Target.Type):
+			return "denied-ok", ""
+		}
+
+		for _, ch := range rec.Changed {
+			if !slices.Contains(rec.Own, ch) {
+				return "foreign-owned-resource-modified", fmt.Sprintf("CleanupOutputs for %s/%s changed %s, which the controller does not own (own: %v)", rec.Target.NS, rec.Target.Type, ch, rec.Own)
+			}
+		}
+
+		return verdictOf(failed), ""
+	}
 	onlyTarget := unchanged || (len(rec.Changed) == 1 && rec.Changed[0] == rec.Target.String())
 
 	if failed && !unchanged {
